@@ -41,6 +41,28 @@ WINDOWS = [
      [("a", "mean", "x"), ("mn", "min", "x"), ("c", "count", "x")]),
     ("w_all_rows", ".extend({'t': 'x.sum()', 'n': '_size()'}, partition_by=1)", [], [("t", "sum", "x"), ("n", "size", None)]),
 ]
+# two windowed extends in a row with DIFFERENT partitions (the builder may merge adjacent extends only when the partitions agree):
+# (label, suffix, [(partition_by, aggs) per step])
+WINDOW_CHAINS = [
+    ("g_then_all", ".extend({'t': 'x.sum()'}, partition_by=['g']).extend({'u': 'y.sum()'}, partition_by=1)", [(["g"], [("t", "sum", "x")]), ([], [("u", "sum", "y")])]),
+    ("all_then_g", ".extend({'u': 'y.sum()'}, partition_by=1).extend({'t': 'x.sum()'}, partition_by=['g'])", [([], [("u", "sum", "y")]), (["g"], [("t", "sum", "x")])]),
+    ("g_then_empty_list", ".extend({'t': 'x.max()'}, partition_by=['g']).extend({'n': '_size()'}, partition_by=[])", [(["g"], [("t", "max", "x")]), ([], [("n", "size", None)])]),
+    ("g_then_gy", ".extend({'t': 'x.sum()'}, partition_by=['g']).extend({'c': 'x.count()'}, partition_by=['g', 'y'])", [(["g"], [("t", "sum", "x")]), (["g", "y"], [("c", "count", "x")])]),
+    ("gy_then_g", ".extend({'c': 'x.count()'}, partition_by=['g', 'y']).extend({'t': 'x.sum()'}, partition_by=['g'])", [(["g", "y"], [("c", "count", "x")]), (["g"], [("t", "sum", "x")])]),
+]
+
+
+def ref_window_chain(tabs, nrows, table, steps):
+    """the window reference applied step after step (each step sees the previous step's table)"""
+    from vf.sym import refsem
+
+    cur, r = tabs, None
+    for pb, aggs in steps:
+        r = refsem.ref_window_group(cur, nrows, table, pb, [tuple(a) for a in aggs])
+        cur = {table: {c: [row[i] for row in r.rows] for i, c in enumerate(r.cols)}}
+    return r
+
+
 BACKENDS = [("pandas", lambda s: {"kind": "pandas", "src": s}), ("sqlite", lambda s: {"kind": "sql", "src": s, "dialect": "sqlite"}),
             ("postgresql-model", lambda s: {"kind": "sql", "src": s, "dialect": "postgresql"})]
 
@@ -62,6 +84,9 @@ def build_jobs(tier, seed, kf_on):
             for label, suf, pb, aggs in WINDOWS:
                 ref = {"kind": "fn", "fn": "vf.sym.refsem:ref_window_group", "args": ["d", pb, aggs], "label": "group aggregate per row"}
                 jobs.append(simple.tv_job(f"window/{label}:{bname}@{n}", schema, rows, mk(D + suf), ref, kf_on, tier, validate=val, max_paths=6000))
+            for label, suf, steps in WINDOW_CHAINS:
+                ref = {"kind": "fn", "fn": "vf.checks.c09:ref_window_chain", "args": ["d", steps], "label": "group aggregate per row, step after step"}
+                jobs.append(simple.tv_job(f"window_chain/{label}:{bname}@{n}", schema, rows, mk(D + suf), ref, kf_on, tier, validate=val, max_paths=6000))
     return jobs
 
 
